@@ -190,7 +190,7 @@ def run_case(case):
         ctx = {"history": h.log[-6:]}
         if r < 0.45:
             e = edits.list_mut_edit(rnd, h.spec) if rnd.random() < 0.85 else hostile_list_op(rnd, h.spec)
-            if e is None:
+            if e is None or not edits.admissible(e, h.spec):
                 continue
             C["list_operations"] += 1; classes.add("mut_" + e["method"])
             cur = h.spec["objects"][e["obj"]]["params"][e["attr"]][1]
